@@ -247,3 +247,30 @@ Example C01_copy_too_deep_fires :
   | _ => False
   end.
 Proof. vm_compute. repeat split; reflexivity. Qed.
+
+(* ---- the main theorem applied: every hypothesis of C01_apply_refines_rfc discharged on the document and the
+   seven-operation patch (all six kinds, a copy, "-", a negative index, an escaped token) of C01_nonvacuous;
+   the reference run is Done, and the theorem yields the success branch ---- *)
+Definition C01_ex_doc := B "{""a"":[1,2],""b"":0}".
+Definition C01_ex_patch := B "[{""op"":""add"",""path"":""/a/-"",""value"":null},{""op"":""test"",""path"":""/a/-1"",""value"":null},{""op"":""copy"",""from"":""/a"",""path"":""/x~1y""},{""op"":""move"",""from"":""/a/0"",""path"":""/a/1""},{""op"":""replace"",""path"":""/x~1y/0"",""value"":{""k"":1.0}},{""op"":""remove"",""path"":""/b""},{""op"":""test"",""path"":""/a"",""value"":[2,1,null]}]".
+Definition C01_ex_o := mkOpts true 0 false false true [] None.
+Definition C01_ex_t : tjson := match parse C01_ex_doc with Some t => t | None => TNull end.
+Definition C01_ex_p : list operation := match api_decode C01_ex_patch with Some p => p | None => [] end.
+Definition C01_ex_result : ojson :=
+  den (TObj [(B "a", TArr [TNum (B "2"); TNum (B "1"); TNull]); (B "x/y", TArr [TObj [(B "k", TNum (B "1.0"))]; TNum (B "2"); TNull])]).
+
+Example C01_main_theorem_applies :
+  exists n, api_apply C01_ex_o [] C01_ex_p C01_ex_doc = ROut (output C01_ex_o [] (render (o_esc C01_ex_o) n)) /\
+            aval n = C01_ex_result /\ ngood n.
+Proof.
+  pose proof (C01_apply_refines_rfc C01_ex_o [] C01_ex_p C01_ex_doc C01_ex_t) as H.
+  assert (R : rfc_apply (dia C01_ex_o) (den C01_ex_t) (map den_op C01_ex_p) = Done C01_ex_result) by (vm_compute; reflexivity).
+  rewrite R in H. apply H.
+  - repeat split.
+  - vm_compute; reflexivity.
+  - reflexivity.
+  - vm_compute; reflexivity.
+  - apply (decoded_in_domain_op_dom C01_ex_patch); vm_compute; reflexivity.
+  - vm_compute; reflexivity.
+Qed.
+Print Assumptions C01_main_theorem_applies.
